@@ -58,7 +58,8 @@ type Chan struct {
 	cap    int
 	closed bool
 	id     int
-	sendVC vclock
+	sendVC vclock   // clock of the close
+	msgVC  []vclock // clock of each buffered message's send
 }
 
 // ---------- zero values ----------
